@@ -242,6 +242,50 @@ func liveRound(e *core.Env, round, per int, dns *svx.FakeDNS) {
 			uc.Close()
 		}
 	}
+	// ---- hostile remote: what a target returns is network input too. A remote on port 53 (the source the default
+	// padding policy treats specially) answers one request with replies of every size around the client's budget,
+	// plus some that only fit the receive buffer or nothing at all. Whether a reply is delivered is not judged here.
+	if t53, err := net.ListenUDP("udp", &net.UDPAddr{IP: net.IPv4(127, 0, 0, 3), Port: 53}); err == nil {
+		go func() {
+			b := make([]byte, 2048)
+			for {
+				_, from, err := t53.ReadFromUDPAddrPort(b)
+				if err != nil {
+					return
+				}
+				for n := 1380; n <= 1480; n++ {
+					t53.WriteToUDPAddrPort(core.Pattern(53, 0, n), from)
+				}
+				for _, n := range []int{0, 1, 1232, 3000, 9000, 65000} {
+					t53.WriteToUDPAddrPort(core.Pattern(53, 0, n), from)
+				}
+			}
+		}()
+		sweeps := 0
+		for i, s := range servers {
+			if !s.o.UDP {
+				continue
+			}
+			hc, err := svx.NewClient(svx.JSON(t.ClientFor("h53", s.name, s.proto, p[i], 0, true, true)))
+			if err != nil {
+				continue
+			}
+			peer, err := hc.NewUDPPeer("127.0.0.1")
+			if err != nil {
+				continue
+			}
+			rec.Begin("live", round, "udp replies from port 53 sweeping 1380..1480 bytes through "+s.name)
+			peer.Send(conn.AddrFromIPPort(netip.MustParseAddrPort("127.0.0.3:53")), []byte("sweep"))
+			svx.Poll(2*time.Second, func() bool { return len(peer.Got()) >= 20 })
+			rec.Count("port53_replies_delivered", int64(len(peer.Got())))
+			peer.Close()
+			sweeps++
+		}
+		t53.Close()
+		rec.Count("port53_reply_sweeps", int64(sweeps))
+	} else {
+		rec.Note("live: port 53 on 127.0.0.3 not available (%v): reply sweep skipped", err)
+	}
 	rec.Count("hostile_inputs_over_sockets", int64(blasted))
 	// let the relay digest what is still queued
 	vtime.RealSleep(100 * time.Millisecond)
